@@ -72,7 +72,7 @@ func caseVariants(w string) []string {
 }
 
 func (*prop) Cases(seed int64, tier string) []core.Case {
-	nrand, randN, rounds := 8, 1500, 20
+	nrand, randN, rounds := 16, 1500, 40
 	if tier == "thorough" {
 		nrand, randN, rounds = 48, 6000, 250
 	}
